@@ -870,7 +870,7 @@ struct Value {
             return value_->operator==(val);
         }
 
-        return (type > val.Type());
+        return false;
     }
 
     void Merge(Value &&val) {
